@@ -7,7 +7,7 @@ from . import common as C, l3
 from .common import X
 from . import regexgen as G
 
-MT = [0, 1, 999_999_999, 1_000_000_000, 1_600_000_000_123_456_789, 2 ** 33 * 10 ** 9 + 5, 4_000_000_000_987_654_321]
+MT = [0, 1, 999_999_999, 1_000_000_000, 9_223_372_036_854_775_808, 10_000_000_000_000_000_123, 1_600_000_000_123_456_789, 2 ** 33 * 10 ** 9 + 5, 4_000_000_000_987_654_321]
 FILE_SIZES = [0, 1, 5, 31, 32, 33, 100, 4095, 4096, 4097, 4128, 8192, 12288, 12289, 12388]
 NAMES = ['a', 'b', 'c', 'd.txt', 'é', 'sp ace', 'L', 'M', 'k', 'new\nline']
 
